@@ -8,13 +8,14 @@ from harness import fstree
 from vlib import core
 
 
-def listing(root, exclude):
-    """independent enumeration: regular files under root (not following directory links), relative
-    normalised names, minus excluded (pathspec is an oracle) -> [(rel, sha256hex)] in os.walk order"""
+def listing(root, exclude, follow=False, normalize=False):
+    """independent enumeration: regular files under root (following directory links only when asked), relative
+    normalised names, minus excluded (pathspec is an oracle) -> [(rel, sha256hex)] in os.walk order; the hash is over
+    the file's bytes, or over its line-ending-normalised bytes when that option is on"""
     from pathspec import GitIgnoreSpec
     spec = GitIgnoreSpec.from_lines("gitwildmatch", exclude)
     out = []
-    for base, dirs, files in os.walk(root):
+    for base, dirs, files in os.walk(root, followlinks=follow):
         rel_base = os.path.relpath(base, root)
         dirs[:] = [d for d in dirs if not spec.match_file(os.path.normpath(os.path.join(rel_base, d)))]
         for f in files:
@@ -24,7 +25,10 @@ def listing(root, exclude):
             p = os.path.join(root, rel)
             if not os.path.isfile(p):
                 continue
-            out.append([rel, hashlib.sha256(open(p, "rb").read()).hexdigest()])
+            data = open(p, "rb").read()
+            if normalize:
+                data = data.replace(b"\r\n", b"\n").replace(b"\r", b"\n")
+            out.append([rel, hashlib.sha256(data).hexdigest()])
     return out
 
 
@@ -73,13 +77,22 @@ def pinned_cases():
         after = copy.deepcopy(t2)
         after["keep"][1]["a.txt"] = f("a!")          # an EXCLUDED file is edited: the digest stays
         out.append({"tree": t2, "after": after, "log": [["pinned", "edit-excluded"]], "exclude": excl})
+    # the two recording flags, one at a time: carriage returns in files and a linked directory whose target lies outside
+    t3 = {"a.txt": f("x\r\ny\r"), "sub": d(**{"b.bin": f("\r\n"), "c.txt": f("plain\n")}), "lnk": ["l", "../outside"]}
+    for follow, normalize in ((True, False), (False, True), (True, True), (False, False)):
+        after = copy.deepcopy(t3)
+        after["a.txt"] = f("x\ny\n")              # line endings changed: a different file unless normalisation is on
+        out.append({"tree": t3, "after": after, "log": [["pinned", "flags"]], "exclude": None,
+                    "flags": {"follow": follow, "normalize": normalize}, "outside": {"o.txt": f("o\r\n")}})
     return out
 
 
-def impl_dir(path, excl, lstrip=None):
+def impl_dir(path, excl, lstrip=None, base=None, flags=None):
     import in_toto.runlib as rl
+    fl = flags or {}
     try:
-        r = rl.record_artifacts_as_dict(["dir:" + path], exclude_patterns=excl, lstrip_paths=lstrip)
+        r = rl.record_artifacts_as_dict(["dir:" + path], exclude_patterns=excl, lstrip_paths=lstrip, base_path=base,
+                                        follow_symlink_dirs=bool(fl.get("follow")), normalize_line_endings=bool(fl.get("normalize")))
         if lstrip:
             # the prefix list applies to the recorded NAME only, never to the lines inside the digest
             (k, v), = r.items()
@@ -110,6 +123,9 @@ def run(ctx):
         with fstree.scratch(ctx, "c20") as root:
             for tag, key in (("t0", "tree"), ("t1", "after")):
                 fstree.materialize(fstree.spec_from_json(c[key]), os.path.join(root, tag, "d"))
+                if c.get("outside"):
+                    fstree.materialize(fstree.spec_from_json(c["outside"]), os.path.join(root, tag, "outside"))
+                fl = c.get("flags") or {}
                 with fstree.in_dir(os.path.join(root, tag)):
                     # every third case passes a prefix list whose entries also occur INSIDE the directory
                     inner = sorted(k for k, v in c[key].items() if v[0] == "d")
@@ -123,8 +139,14 @@ def run(ctx):
                             _rl.record_artifacts_as_dict(["ostree:no-such-ref"], base_path="elsewhere")
                         except Exception:  # noqa
                             pass
-                    out = impl_dir("d", c["exclude"], ls)
-                    files = listing("d", c["exclude"] or default_excl)
+                    if len(meta) % 5 == 2:
+                        # the caller stands in the parent directory and names this one as the base path: same
+                        # directory, same name, same digest (regression of D11a)
+                        with fstree.in_dir(root):
+                            out = impl_dir("d", c["exclude"], ls, base=os.path.join(root, tag), flags=fl)
+                    else:
+                        out = impl_dir("d", c["exclude"], ls, flags=fl)
+                    files = listing("d", c["exclude"] or default_excl, follow=bool(fl.get("follow")), normalize=bool(fl.get("normalize")))
                 ctx.rng.shuffle(files)
                 reqs.append(("dir_text", {"files": files}))
                 impl.append(out)
